@@ -5,7 +5,7 @@ section (core Lean only):
 * `construct/edges.py`       `EdgeData.reverse` (hook added by the repair): `Datum.reverse`
 * `construct/flat/face.py`   `Face.invert` (repaired: reverses the data), `shift`, `reorient`
                              (re-used from the C10 model, which is generic in the edge data)
-* `construct/operations/operation.py`  `Operation.edges` (12 `Frame.add_beam` calls)
+* `construct/operations/operation.py`  `Operation.edges` (12 `Frame.add_beam` calls), `Operation.invert`
 * `util/frame.py`            `Frame.add_beam` / `get_all_beams` (symmetric storage, enumeration
                              order `CBV.Gen.beamOrder` regenerated from the source)
 * `lists/edge_list.py`       `EdgeList.find / add / add_from_operation` (repaired: directed corner
@@ -224,6 +224,8 @@ structure UOp where
   top : Face Nat Datum
   topOps : List FaceOp
   side : List Datum
+  /-- `Operation.invert()` was called on the finished operation -/
+  inverted : Bool := false
   deriving Repr
 
 /-- `VertexList.add` without merged patches: a location gets the index of its first occurrence.
@@ -238,12 +240,18 @@ def vertexAll : List Nat → List Nat → List Nat × List Nat
       let b := vertexAll a.1 ls
       (b.1, a.2 :: b.2)
 
-/-- faces after the calls, `Operation.points`, `Operation.edges` data -/
-def UOp.resolve (pos : Nat → V3) (u : UOp) (vs : List Nat) : List Nat × ROp :=
+/-- bottom face, top face and side data the operation holds when it is assembled.
+    `Operation.invert()` (as repaired): the faces swap, every side datum is reversed. -/
+def UOp.parts (pos : Nat → V3) (u : UOp) : Face Nat Datum × Face Nat Datum × List Datum :=
   let b := applyFaceOps pos u.bottom u.bottomOps
   let t := applyFaceOps pos u.top u.topOps
-  let r := vertexAll vs (b.pts ++ t.pts)
-  (r.1, { verts := r.2, data := b.edges ++ t.edges ++ u.side })
+  if u.inverted then (t, b, u.side.map Datum.reverse) else (b, t, u.side)
+
+/-- `Operation.points` turned into vertices, `Operation.edges` data -/
+def UOp.resolve (pos : Nat → V3) (u : UOp) (vs : List Nat) : List Nat × ROp :=
+  let p := u.parts pos
+  let r := vertexAll vs (p.1.pts ++ p.2.1.pts)
+  (r.1, { verts := r.2, data := p.1.edges ++ p.2.1.edges ++ p.2.2 })
 
 def resolveAll (pos : Nat → V3) : List Nat → List UOp → List Nat × List ROp
   | vs, [] => (vs, [])
@@ -325,6 +333,11 @@ def parseUOp? (s : String) : Option UOp :=
       let t ← parseFace? t
       let sd ← parseData4? sd
       some { bottom := b.1, bottomOps := b.2, top := t.1, topOps := t.2, side := sd }
+  | [b, t, sd, "inv"] => do
+      let b ← parseFace? b
+      let t ← parseFace? t
+      let sd ← parseData4? sd
+      some { bottom := b.1, bottomOps := b.2, top := t.1, topOps := t.2, side := sd, inverted := true }
   | _ => none
 
 def showV3s (ps : List V3) : String := if ps.isEmpty then "-" else "_".intercalate (ps.map V3.toStr)
